@@ -1,0 +1,21 @@
+//go:build verif
+
+// Verification hooks (build tag "verif") for the cluster layers. Thin exported wrappers;
+// no logic of their own. Not compiled in normal builds.
+
+package sugardb
+
+import (
+	"github.com/echovault/sugardb/internal/memberlist"
+	"github.com/echovault/sugardb/internal/raft"
+)
+
+// VerifRaft is the raft layer (nil on a standalone server).
+func (server *SugarDB) VerifRaft() *raft.Raft {
+	return server.raft
+}
+
+// VerifMemberList is the gossip layer (nil on a standalone server).
+func (server *SugarDB) VerifMemberList() *memberlist.MemberList {
+	return server.memberList
+}
